@@ -30,6 +30,7 @@ type xEdge struct {
 	res    *stepResult
 	crashN string // crash when the input ends within the look-ahead window
 	crashW string // function in which that crash is raised
+	to     string // key of the successor node (Kind "ok" only)
 }
 
 type xGraph struct {
@@ -152,8 +153,8 @@ func exploreScannerUncached(c *load.Ctx, name string, sp xSpec) *xGraph {
 						}
 					}
 				}
-				g.edges = append(g.edges, e)
 				if r.Kind != "ok" {
+					g.edges = append(g.edges, e)
 					continue
 				}
 				// bytes after the fed one that are now fixed
@@ -176,6 +177,8 @@ func exploreScannerUncached(c *load.Ctx, name string, sp xSpec) *xGraph {
 				}
 				pend = trimPending(pend)
 				k := r.Next.key + "\x00" + pendingKey(pend)
+				e.to = k
+				g.edges = append(g.edges, e)
 				if !seen[k] {
 					seen[k] = true
 					queue = append(queue, &xNode{st: r.Next, pending: pend, path: n.path + string([]byte{byte(b)})})
@@ -190,6 +193,7 @@ var scannerSpecs = map[string]xSpec{
 	"json":        {rel: "formats/json", ctor: "newScanner", typ: "scanner", maxStack: 6, maxNodes: 4000},
 	"schema":      {rel: "notations/jschema/internal/scanner", ctor: "New", typ: "Scanner", maxStack: 5, maxNodes: 5000},
 	"schema-deep": {rel: "notations/jschema/internal/scanner", ctor: "New", typ: "Scanner", maxStack: 5, maxNodes: 40000},
+	"schema-long": {rel: "notations/jschema/internal/scanner", ctor: "New", typ: "Scanner", maxStack: 3, maxNodes: 40000},
 	"enum":        {rel: "rules/enum", ctor: "newScanner", typ: "scanner", maxStack: 6, maxNodes: 4000, prepare: prepareEnumModel},
 }
 
@@ -1011,5 +1015,74 @@ func runSXEofNote(c *load.Ctx, r *report.RuleResult, name string) {
 	}
 	if len(count) == 0 {
 		r.Unk("anchor|inline note states", "", "no reachable inline-note state after a complete value")
+	}
+}
+
+// --- what the end of the text completes, a line break completes too -----------------------------------
+
+func init() {
+	for _, name := range []string{"json", "schema", "enum"} {
+		name := name
+		register(&Rule{ID: "SX-eofnl-" + name, Min: 2, Run: func(c *load.Ctx, r *report.RuleResult) { runSXEofNL(c, r, name) },
+			Doc: "scanner " + name + ": a text the scanner accepts as complete at the end of input is not a lexical error when a line break follows it: in every reachable abstract state in which the end of input is accepted and closes a lexeme that reaches the last byte (so that Len is the whole text), the byte LF is not rejected — C14 takes `S`, a line break and foreign text to have the length of `S`, so a state that closes its open lexemes at the end of the text but refuses a line break (a type union cut off after `|`, a bare `@`) makes Len answer for a text that is not a complete value"})
+	}
+}
+
+func runSXEofNL(c *load.Ctx, r *report.RuleResult, name string) {
+	sp := scannerSpecs[name]
+	g := exploreScanner(c, name, sp)
+	if g.err != nil {
+		r.Unk("anchor|"+sp.rel, "", g.err.Error())
+		return
+	}
+	nl := map[*xNode][]*stepResult{}
+	for _, e := range g.edges {
+		if e.input == '\n' {
+			nl[e.from] = append(nl[e.from], e.res)
+		}
+	}
+	count := map[string]int{}
+	bad := map[string]bool{}
+	for n, res := range g.eof {
+		if res == nil || res.Kind != "end" {
+			continue
+		}
+		rs := nl[n]
+		if len(rs) == 0 {
+			continue // beyond the nesting bound: no byte was fed here
+		}
+		// Only where the end of input closes something that reaches the last byte: then Len is the whole
+		// text and the whole text is the S of C14. A trailing byte no event covers (`0/`: the slash is
+		// dropped, Len is 1) is foreign text to Len, and the rule has nothing to say about it.
+		reaches := false
+		for _, ev := range res.Events {
+			if off, ok := relToLast(ev.End); ok && off >= 0 {
+				reaches = true
+			}
+		}
+		if !reaches {
+			continue
+		}
+		step := baseStepName(implStepName(g.m, n.st))
+		key := "eofnl|impl=" + step
+		count[key]++
+		if bad[key] {
+			continue
+		}
+		for _, x := range rs {
+			if x.Kind == "reject" {
+				bad[key] = true
+				r.Bad(key, c.Pos(g.m.next.Pos()), fmt.Sprintf("the text %q is accepted at the end of input, but followed by a line break it is refused (%s %s)", n.path, x.Code, x.Detail))
+				break
+			}
+		}
+	}
+	for _, k := range sortedKeys(count) {
+		if !bad[k] {
+			r.OK(k, "", fmt.Sprintf("%d accepting end-of-input state(s): a line break is taken there too", count[k]))
+		}
+	}
+	if len(count) == 0 {
+		r.Unk("anchor|eof states", "", "no state accepts the end of input")
 	}
 }
